@@ -228,9 +228,7 @@ def gen_c08_group(rng, gid, nhist, maxh):
         for _ in range(rng.randrange(0, 4)):
             h = rng.choice(hashes)
             ops.insert(rng.randrange(0, len(ops) + 1), {'op': 'list', 'p': h[:rng.randrange(0, min(16, depth + height + 2))]})
-        kind = ['plain', 'perm', 'dump', 'rebuild', 'gc', 'any'][hi % 6]
-        if kind == 'any':
-            kind = rng.choice(['dump', 'rebuild', 'gc', 'perm'])
+        kind = ['plain', 'perm', 'dump', 'rebuild', 'gc', 'rebuild2'][hi % 6]
         if kind in ('dump', 'rebuild'):
             rm = [] if kind == 'dump' else rng.choice(RM_KINDS[1:3])
             pos = len(ops) if rng.random() < 0.5 else rng.randrange(0, len(ops) + 1)
@@ -239,6 +237,12 @@ def gen_c08_group(rng, gid, nhist, maxh):
                 pos = rng.randrange(0, len(ops) + 1)
                 if not any(o['op'] in ('close', 'open') for o in ops[max(0, pos - 1):pos + 1]):
                     ops[pos:pos] = [{'op': 'close'}, {'op': 'open', 'rm': rng.choice(RM_KINDS)}]
+        elif kind == 'rebuild2':
+            # a delete lands in a LATER data file than the value it deletes, then the tree is rebuilt
+            dels = [i for i, o in enumerate(ops) if o['op'] == 'del']
+            pos = rng.choice(dels) if dels else rng.randrange(0, len(ops) + 1)
+            ops[pos:pos] = [{'op': 'close'}, {'op': 'open', 'rm': rng.choice(RM_KINDS)}]
+            ops += [{'op': 'close'}, {'op': 'open', 'rm': rng.choice(RM_KINDS[1:3])}]
         elif kind == 'gc':
             pos = rng.randrange(0, len(ops) + 1)
             ops[pos:pos] = [{'op': 'close'}, {'op': 'open', 'rm': rng.choice(RM_KINDS)}]
@@ -443,6 +447,7 @@ CONSTANTS
   RAlpha <- {alpha}
   RMaxOps <- {ops}
   RMut <- {mut}
+  RVh <- {vh}
 INVARIANTS C15_Place C15_Miss C15_RefOnlyServed C15_Upper C15_TopCount
 CHECK_DEADLOCK FALSE
 '''
@@ -459,7 +464,7 @@ MC = {
             'thorough': [('Route', dict(depth='Depth0', alpha='Alpha3', ops='ROps4')),
                          ('Route', dict(depth='Depth1', alpha='Alpha3', ops='ROps4')),
                          ('Route', dict(depth='Depth2', alpha='Alpha2', ops='ROps4')),
-                         ('Route', dict(depth='Depth2', alpha='Alpha3', ops='ROps3'))]},
+                         ('Route', dict(depth='Depth2', alpha='Alpha3', ops='ROps3', vh='RVh1'))]},
 }
 # specification mutants: each must be rejected by TLC (the invariants are not vacuous)
 MC_MUT = {
@@ -471,6 +476,8 @@ MC_MUT = {
 def mc_cfg(module, over):
     d = dict(over)
     d.setdefault('mut', 'MutNone')
+    d.setdefault('vh', 'RVh2')
+    d.setdefault('keys', 'MCKeys8')
     return (MC_H if module == 'HTreeList' else MC_R).format(**d)
 
 
@@ -486,16 +493,22 @@ def run_one_mc(job):
 from concurrent.futures import ThreadPoolExecutor
 
 COUNTS = {  # (groups, histories per group, checkvh scenarios, populations) / routing scenarios
-    'C08': {'quick': (16, 6, 4, 6), 'thorough': (200, 6, 40, 60)},
-    'C15': {'quick': 48, 'thorough': 600},
+    'C08': {'quick': (16, 6, 4, 6), 'thorough': (100, 6, 20, 30)},
+    'C15': {'quick': 48, 'thorough': 400},
 }
+
+
+SCALE = float(os.environ.get('VERIF_LIST_SCALE', '1'))      # debugging aid: shrink the scenario counts
+NOMC = bool(os.environ.get('VERIF_LIST_NOMC'))              # debugging aid: skip model checking (evidence then invalid)
 
 
 def gen_scenarios(pid, tier, seed):
     rng = random.Random('%s-%s-%d' % (pid, tier, seed))
     scen = []
+    sc = lambda n: max(1, int(n * SCALE))
     if pid == 'C08':
         ng, nh, ncv, npop = COUNTS['C08'][tier]
+        ng, ncv, npop = sc(ng), sc(ncv), sc(npop)
         maxh = 6
         for g in range(ng):
             scen += gen_c08_group(rng, 'c08-%d-g%03d' % (seed, g), nh, maxh)
@@ -504,7 +517,7 @@ def gen_scenarios(pid, tier, seed):
         for i in range(npop):
             scen.append(gen_c08_pop(rng, 'c08-%d-pop%03d' % (seed, i), maxh))
     else:
-        for i in range(COUNTS['C15'][tier]):
+        for i in range(sc(COUNTS['C15'][tier])):
             scen.append(gen_c15(rng, 'c15-%d-%04d' % (seed, i), allow_all256=(tier == 'thorough' and i % 100 == 7) or (tier == 'quick' and i == 7)))
     return scen
 
@@ -588,7 +601,7 @@ def run(pid, tier, seed, work, log, replay=None):
     pool = ThreadPoolExecutor(max_workers=8)
     # ---- (a) model checking, in the background while the scenarios run
     mcjobs, mutjobs = [], []
-    if not replay:
+    if not replay and not NOMC:
         for i, (module, over) in enumerate(MC[pid][tier]):
             mcjobs.append(pool.submit(run_one_mc, (module, over, os.path.join(work, 'mc%d' % i), 4)))
         if tier == 'thorough':
@@ -650,6 +663,57 @@ def run(pid, tier, seed, work, log, replay=None):
             elif chk.startswith('X_'):
                 res['drift'].append((sid, n_, chk))
     log('validated %d events in %d TLC runs (%.1fs)' % (nev, len(chunks), time.time() - t0))
+    # ---- binding self-test (thorough): a corrupted observation / input must be rejected by TLC
+    binding = []
+    if tier == 'thorough' and not replay:
+        import copy
+        for sid in [x['id'] for x in scen if x['id'] in per]:
+            ev = per[sid]
+            if pid == 'C08' and any(e['a'] == 'List' and e['nodes'] for e in ev) and any(e['a'] == 'List' and e['items'] for e in ev):
+                break
+            if pid == 'C15' and any(e['a'] == 'Files' and e['sizes'] for e in ev) and any(e['a'] == 'Get' and e['res'] == 'miss' for e in ev):
+                break
+
+        def corrupt_nodes(ev):
+            for e in ev:
+                if e['a'] == 'List' and e['nodes']:
+                    e['nodes'][len(e['nodes']) // 2][2] += 1
+                    return
+
+        def corrupt_item(ev):
+            for e in ev:
+                if e['a'] == 'List' and any(it[2] > 0 for it in e['items']):
+                    it = [x for x in e['items'] if x[2] > 0][0]
+                    it[0][15] ^= 1
+                    return
+
+        def corrupt_vh(ev):
+            for e in ev:
+                if e['a'] == 'Set' and e['rev'] >= 0:
+                    e['vh'] = (e['vh'] + 1) % 65536
+                    return
+
+        def corrupt_files(ev):
+            for e in ev:
+                if e['a'] == 'Files' and e['sizes']:
+                    e['sizes'][0][0] = (e['sizes'][0][0] + 1) % 16
+                    return
+
+        def corrupt_get(ev):
+            for e in ev:
+                if e['a'] == 'Get' and e['res'] == 'miss':
+                    e['res'], e['ver'], e['vh'] = 'hit', 1, 7
+                    return
+        muts = {'C08': [corrupt_nodes, corrupt_item, corrupt_vh], 'C15': [corrupt_files, corrupt_get]}[pid]
+        for i, m in enumerate(muts):
+            ev2 = copy.deepcopy(per[sid])
+            m(ev2)
+            bad, ok, r = validate(ev2, os.path.join(work, 'bind%d' % i))
+            hit = sorted(set(b[2] for b in bad if b[2].startswith(pid + '_')))
+            binding.append({'corruption': m.__name__, 'scenario': sid, 'rejected_by': hit})
+            log('binding self-test %s: %s' % (m.__name__, hit or 'NOT rejected'))
+            if not ok or not hit:
+                raise V.Inconclusive('binding self-test: corrupted trace (%s) was not rejected' % m.__name__)
     # ---- collect model checking
     mcruns = [j.result() for j in mcjobs]
     states = sum(m['distinct'] for m in mcruns)
@@ -703,7 +767,7 @@ def run(pid, tier, seed, work, log, replay=None):
         'events_validated': nev, 'listings_compared': nlist, 'file_observations': nfiles, 'trace_states': tstates,
         'history_groups': len(groups), 'history_groups_equal_final_content': eq_groups,
         'configurations_buckets_height': [list(c) for c in confs], 'scenarios_aborted_in_setup': aborted,
-        'mc_runs': mcruns, 'spec_mutants_rejected': selftest,
+        'mc_runs': mcruns, 'spec_mutants_rejected': selftest, 'binding_selftest': binding,
         'exhaustive': bool(mcruns) and all(not m['timeout'] for m in mcruns),
         'drift': len(res['drift']), 'model_only_leads': len(res['lead']),
     }
